@@ -22,7 +22,15 @@ MMX = [
 for _op in ("paddb", "paddw", "paddd", "paddq", "psubb", "psubusw", "pxor", "pand", "por", "pandn", "pcmpeqb", "pcmpgtw", "punpcklbw", "punpckhdq", "pmullw", "pmaddwd",
             "packsswb", "packuswb", "pavgb", "pminub", "pmaxsw", "psadbw"):
     MMX += [("%s %%mm1, %%mm2" % _op, "rr"), ("%s 0x10(%%esi), %%mm3" % _op, "mr")]
+CVT_F64 = ("cvtsd2si", "cvttsd2si", "cvtsd2ss", "cvtpd2pi", "cvttpd2pi", "cvtpd2ps", "cvtpd2dq", "cvttpd2dq")
+CVT_F32 = ("cvtss2si", "cvttss2si", "cvtss2sd", "cvtps2pi", "cvttps2pi", "cvtps2pd", "cvtps2dq", "cvttps2dq")
 SSE = [
+    # conversions with a memory source of every width (m32 / m64 / m128): the whole source must be in the read set
+    ("cvtsd2si 0x10(%esi), %eax", "m64"), ("cvttsd2si 0x10(%esi), %ecx", "m64"), ("cvtsd2ss 0x10(%esi), %xmm1", "m64"), ("cvtss2sd 0x10(%esi), %xmm1", "m32"),
+    ("cvtss2si 0x10(%esi), %eax", "m32"), ("cvtpd2pi 0x10(%esi), %mm1", "m128"), ("cvttpd2pi 0x10(%esi), %mm2", "m128"), ("cvtpd2ps 0x10(%esi), %xmm2", "m128"),
+    ("cvtps2pi 0x10(%esi), %mm1", "m64"), ("cvttps2pi 0x10(%esi), %mm2", "m64"), ("cvtps2pd 0x10(%esi), %xmm2", "m64"), ("cvtpi2ps 0x10(%esi), %xmm1", "m64"),
+    ("cvtpi2pd 0x10(%esi), %xmm1", "m64"), ("cvtdq2pd 0x10(%esi), %xmm2", "m64"), ("cvtdq2ps 0x10(%esi), %xmm2", "m128"), ("cvtps2dq 0x10(%esi), %xmm1", "m128"),
+    ("cvtpd2dq 0x10(%esi), %xmm1", "m128"), ("cvttpd2dq 0x10(%esi), %xmm3", "m128"), ("cvtsi2sd 0x10(%esi), %xmm1", "m32"),
     ("movd %eax, %xmm1", "rr"), ("movd %xmm1, %ecx", "rr"), ("movd 0x10(%esi), %xmm2", "mr"), ("movd %xmm2, 0x10(%esi)", "rm"),
     ("movq %xmm1, %xmm2", "rr"), ("movq 0x10(%esi), %xmm3", "mr"), ("movq %xmm3, 0x10(%esi)", "rm"),
     ("movss %xmm1, %xmm2", "rr"), ("movss 0x10(%esi), %xmm2", "mr"), ("movss %xmm2, 0x10(%esi)", "rm"),
@@ -126,8 +134,13 @@ def fx_image(key):
     return bytes(img)
 
 
+XBIT = dict(BIT, nt=14)
+
+
 def locations(inst, fxmode):
     locs = [("reg", n) for n in GPR] + [("flag", n) for n in FLAGS + ["df"]]
+    if inst["family"] in ("popf", "pushf"):
+        locs.append(("flag", "nt"))
     if fxmode == "x87":
         locs += [("st", i) for i in range(8)] + [("fc", i) for i in range(4)] + [("ftop", 0), ("fcw", 0)]
     elif fxmode:
@@ -143,7 +156,7 @@ def get_loc(state_or_out, loc, is_out=False):
     if k == "reg":
         return state_or_out["regs"][GPR.index(n)]
     if k == "flag":
-        return (state_or_out["eflags"] >> BIT[n]) & 1
+        return (state_or_out["eflags"] >> XBIT[n]) & 1
     fx = state_or_out["fx"]
     if k == "mm":
         return bytes(fx[32 + 16 * n:40 + 16 * n])
@@ -177,6 +190,8 @@ def perturb(st, loc, j):
         else:
             s["regs"][i] ^= [0xFFFFFFFF, 0x1, 0x80000000, 0x0000FF00, 0x10][j % 5]
     elif k == "flag":
+        if n not in BIT:
+            return None                      # the executor loads the status flags and DF only
         s["eflags"] ^= 1 << BIT[n]
     elif k in ("mm", "xmm"):
         fx = bytearray(s["fx"])
@@ -318,6 +333,22 @@ def worker(run, st_, k, items):
                 s["data"] = bytes(d)
             elif fxmode:
                 s["fx"] = fx_image((run.seed, inst["text"], sidx))
+                mn_ = inst["text"].split()[0]
+                if "0x10(%esi)" in inst["text"] and (mn_ in CVT_F64 or mn_ in CVT_F32):
+                    # well-formed moderate numbers under the memory source: with random bytes nearly every source is out of range and
+                    # converts to the same "indefinite" value, which hides the dependency on its upper bytes
+                    d = bytearray(s["data"])
+                    d[0x210:0x220] = struct.pack("<dd", 1000.5 + sidx, -77.25 - sidx) if mn_ in CVT_F64 else struct.pack("<ffff", 1000.5 + sidx, -77.25 - sidx, 3.0 + sidx, -9.5)
+                    s["data"] = bytes(d)
+            if inst["family"] == "popf":
+                # the popped image: status flags, DF, NT and ID free; TF / AC / VM / RF clear (they would trap or fault in the executor)
+                d = bytearray(s["data"])
+                o_ = s["regs"][4] - cpu.WIN
+                v_ = struct.unpack_from("<I", d, o_)[0] & (cpu.FLAG_MASK | (1 << 14) | (1 << 21)) | 0x202
+                if sidx % 2:
+                    v_ |= 1 << 14
+                struct.pack_into("<I", d, o_, v_)
+                s["data"] = bytes(d)
             und = undefined_flags(inst, s)
             stubs = [cpu.ENTRY + len(code)] + [cpu.ENTRY + t for t in inst.get("targets", [])] + s["extra_stubs"]
             base_case = {"code": code, "stubs": stubs, "regs": s["regs"], "eflags": s["eflags"], "data": s["data"], "fx": s.get("fx")}
@@ -460,6 +491,9 @@ def all_instances(run):
         for text, size, form in (("pushl %%%s" % sr, 32, "sreg"), ("pushw %%%s" % sr, 16, "sreg-o16"), ("addr16 pushl %%%s" % sr, 32, "sreg-a16"),
                                  ("addr16 pushw %%%s" % sr, 16, "sreg-o16-a16")):
             insts.append({"text": text, "family": "push", "size": size, "form": form})
+    # flag-register transfers: popf writes (and pushf reads) more of EFLAGS than the status flags - NT among them, which user code may set
+    for text, fam, size in (("popfl", "popf", 32), ("popfw", "popf", 16), ("pushfl", "pushf", 32), ("pushfw", "pushf", 16)):
+        insts.append({"text": text, "family": fam, "size": size, "form": "none"})
     for text, form in MMX:
         insts.append({"text": text, "family": "mmx", "size": 64, "form": form})
     for text, form in SSE:
